@@ -2530,6 +2530,10 @@ class ProvDocument(ProvBundle):
                     "WARNING: not saving as location " + "is not a local file reference"
                 )
                 return
+            if scheme != "file":
+                # a plain local file name: use it as it is (characters such
+                # as '#', '?' and ';' are not URL syntax here)
+                path = os.fspath(location)
             fd, name = tempfile.mkstemp()
             stream = os.fdopen(fd, "wb")
             serializer.serialize(stream, **args)
